@@ -75,10 +75,12 @@ def c12_labelings(g):
     that tie under numeric / case-folded keys.  Small classes get all three; larger front-end graphs alternate (by a
     fixed function of the graph) between the interleaving and the tie labelling."""
     n = len(g)
-    if n <= 5:
+    if n <= 4:
         return labelings(n, "eo") + labelings(n, "ties")
-    pick = sum(len(r) + sum(r) for r in g) % 2
-    return labelings(n, "eo") if pick == 0 else labelings(n, "ties1")
+    ties = labelings(n, "ties")
+    menu = labelings(n, "eo") + ties          # 1 + 3 labellings; larger graphs get one of them each
+    pick = sum(len(r) + sum(r) for r in g) % len(menu)
+    return [menu[pick]]
 
 
 def explore(fn, arg, bound, acc: Acc, case, label):
